@@ -123,6 +123,9 @@ func RunPlan(t *testing.T, p *Plan) (res *RunResult) {
 			w := NewWorld(p)
 			w.Online = &res.Online
 			res.H = w.H
+			if f := setupHooks[p.Prop]; f != nil {
+				f(w)
+			}
 			defer func() {
 				if r := recover(); r != nil {
 					res.InfraErr = fmt.Sprintf("driver panic: %v\n%s", r, debug.Stack())
@@ -150,6 +153,9 @@ func RunPlan(t *testing.T, p *Plan) (res *RunResult) {
 				synctest.Wait()
 				w.exec(idx, a)
 				synctest.Wait()
+				if w.PostAction != nil {
+					w.PostAction(idx)
+				}
 			}
 			sleepUntil(p.Start.Add(p.Horizon))
 			synctest.Wait()
@@ -169,6 +175,7 @@ func RunPlan(t *testing.T, p *Plan) (res *RunResult) {
 }
 
 var finalHooks = map[string]func(w *World){}
+var setupHooks = map[string]func(w *World){}
 
 func (w *World) netConfig() simnet.Config {
 	np := w.Plan.Net
